@@ -206,6 +206,34 @@ def MLStructure.asmatrix (S : MLStructure) (data : List Int) : List (Nat × Nat 
   (sorted.map (fun k => (k.1, k.2, ((ent.filter (fun (p, _) => p = k)).map (·.2)).foldl (· + ·) 0))).filter
     (fun t => t.2.2 ≠ 0)
 
+/-! ### `MLMatrix._matvec` as coded -/
+
+/-- the accumulation loop of `ml_matvec_2d/3d`: `y[I] += X[..] * x[J]` over the entries in loop
+order, `data` being the C-ordered data tensor `X` (so `zip` pairs entry `(i,j[,k])` with `X[i,j[,k]]`) -/
+def matvecLoop (ent : List (Nat × Nat)) (data x y0 : List Int) : List Int :=
+  (ent.zip data).foldl
+    (fun y (pd : (Nat × Nat) × Int) => y.modify pd.1.1 (fun a => a + pd.2 * x.getD pd.1.2 0)) y0
+
+/-- `y = np.zeros(shape[0]); ml_matvec_2d(X, bidx, bs, x, y)` -/
+def matvec2d (b1 b2 : Pattern) (m2 n2 : Nat) (data x : List Int) (M : Nat) : List Int :=
+  matvecLoop (nonzero2d b1 b2 m2 n2 false) data x (List.replicate M 0)
+
+/-- `y = np.zeros(shape[0]); ml_matvec_3d(X, bidx, bs, x, y)` -/
+def matvec3d (b1 b2 b3 : Pattern) (m2 n2 m3 n3 : Nat) (data x : List Int) (M : Nat) : List Int :=
+  matvecLoop (nonzero3d b1 b2 b3 m2 n2 m3 n3 false) data x (List.replicate M 0)
+
+/-- `A.dot(x)` for a canonical COO/CSR matrix `A` with `M` rows -/
+def cooMatvec (M : Nat) (ent : List (Nat × Nat × Int)) (x : List Int) : List Int :=
+  (List.range M).map (fun I =>
+    (ent.filter (fun t => t.1 = I)).foldl (fun acc t => acc + t.2.2 * x.getD t.2.1 0) 0)
+
+/-- `MLMatrix._matvec`: Cython loops for 2 and 3 levels, `asmatrix().dot(x)` otherwise -/
+def MLStructure.matvecImpl (S : MLStructure) (data x : List Int) : List Int :=
+  match S.bs, S.bidx with
+  | [_, (m2, n2)], [b1, b2] => matvec2d b1 b2 m2 n2 data x S.shape.1
+  | [_, (m2, n2), (m3, n3)], [b1, b2, b3] => matvec3d b1 b2 b3 m2 n2 m3 n3 data x S.shape.1
+  | _, _ => cooMatvec S.shape.1 (S.asmatrix data) x
+
 end Pyiga.ML
 
 /-! ### `utils.kron_partial` -/
